@@ -304,7 +304,7 @@ func (f *g2lFn) call(c *ast.CallExpr) string {
 	if s, ok := f.callExt(c); ok { // go2lean_string.go: strings, make, Sprintf, primitives with pointer receivers
 		return s
 	}
-	if c.Ellipsis.IsValid() {
+	if c.Ellipsis.IsValid() && !f.ellipsisOK(c) { // go2lean_env.go
 		f.fail("variadic call `%s`", f.src(c))
 	}
 	ftv := f.g.info.Types[c.Fun]
@@ -325,7 +325,7 @@ func (f *g2lFn) call(c *ast.CallExpr) string {
 		return s
 	}
 	sig := fn.Type().(*types.Signature)
-	if sig.Variadic() {
+	if sig.Variadic() && !(c.Ellipsis.IsValid() && f.ellipsisOK(c)) { // go2lean_env.go: a spread slice is passed as it is
 		f.fail("variadic function in `%s`", f.src(c))
 	}
 	key, local := f.calleeKey(fn)
@@ -385,6 +385,9 @@ func (f *g2lFn) builtin(c *ast.CallExpr) string {
 		a := f.args(c.Args)
 		return id.Name + " " + a[0] + " " + a[1]
 	case "append":
+		if s, ok := f.appendSpread(c); ok { // go2lean_env.go
+			return s
+		}
 		if c.Ellipsis.IsValid() || len(c.Args) < 1 {
 			f.fail("`%s`", f.src(c))
 		}
@@ -395,6 +398,9 @@ func (f *g2lFn) builtin(c *ast.CallExpr) string {
 		return a[0] + " ++ [" + strings.Join(a[1:], ", ") + "]"
 	}
 	if s, ok := f.builtinOther(id.Name, c); ok {
+		return s
+	}
+	if s, ok := f.builtinEnv(id.Name, c); ok { // go2lean_env.go
 		return s
 	}
 	f.fail("builtin `%s`", id.Name)
@@ -442,6 +448,9 @@ func (f *g2lFn) conversion(to types.Type, arg ast.Expr, c *ast.CallExpr) string 
 func (f *g2lFn) composite(x *ast.CompositeLit) string {
 	t := f.typeOf(x)
 	if s, ok := f.compositeExt(x, t); ok { // go2lean_string.go: map literals
+		return s
+	}
+	if s, ok := f.compositeEnv(x, t); ok { // go2lean_env.go: map literals
 		return s
 	}
 	switch g2lKindOf(t) {
@@ -631,6 +640,9 @@ func g2lRel(op token.Token) string {
 func (f *g2lFn) relation(x *ast.BinaryExpr) string {
 	lt, rt := f.typeOf(x.X), f.typeOf(x.Y)
 	if s, ok := f.relationOther(x, lt, rt); ok {
+		return s
+	}
+	if s, ok := f.relationEnv(x, lt, rt); ok { // go2lean_env.go
 		return s
 	}
 	// comparison with nil
